@@ -536,7 +536,8 @@ type batch struct {
 	enumPos   int
 	enumBases int // base scenarios in the thorough tier (quick tier: quick)
 	// dense enumeration: every bit of every byte of each candidate write no longer than enumDense bytes
-	enumDense int
+	enumDense    int
+	enumDenseMin int // writes shorter than this are skipped (another batch covers them)
 }
 
 type propDef struct {
@@ -565,12 +566,14 @@ func reg(p *propDef) { props[p.id] = p }
 func init() {
 	reg(&propDef{id: "C01", level: "exploration", crashIsViol: true,
 		batches: []batch{{name: "faultfree", params: map[string]string{"full": "1"}, quick: 2400, thorough: 60000},
-			{name: "manyfiles", params: map[string]string{"many": "1"}, quick: 16, thorough: 300, chunk: 1}},
+			{name: "manyfiles", params: map[string]string{"many": "1"}, quick: 16, thorough: 300, chunk: 1},
+			{name: "bufedge", params: map[string]string{"bufedge": "1"}, quick: 500, thorough: 20000}},
 		rule:    "each evaluation is one simulated end-to-end transfer (generated source tree x configuration vector x transport profile x schedule) on a fault-free link; non-trivial = both sides reported success and the file-system oracle compared every transferred entry; distinct = distinct (configuration class, schedule-trace hash) pairs"})
 	reg(&propDef{id: "C02", level: "exploration", crashIsViol: false,
 		batches: []batch{{name: "bytefaults", quick: 3000, thorough: 60000},
 			{name: "enumerated", quick: 2, thorough: 60, enumKinds: 5, enumPos: 6, enumBases: 60},
 			{name: "enumerated-resume", params: map[string]string{"resume": "1"}, quick: 6, thorough: 80, enumKinds: 5, enumPos: 6, enumBases: 80},
+			{name: "dataflips", params: map[string]string{"dataflips": "1"}, quick: 2, thorough: 16, enumKinds: 1, enumDense: 700, enumDenseMin: 161, enumBases: 16},
 			{name: "bitflips", params: map[string]string{"resume": "1"}, quick: 2, thorough: 12, enumKinds: 1, enumDense: 160, enumBases: 12}},
 		rule:    "each evaluation is one simulated transfer (1-3 small files, protocols 1-4, base64/binary/compressed/escaped, resume with hash exchange) in which 1-3 byte-level faults (bit flip, deletion, duplication, insertion, truncation) are applied to tape-chosen chunks and positions (biased to the structural bytes of a line) of either direction of one hop; non-trivial = at least one fault actually altered bytes and both roles ended; distinct = distinct (configuration + fault placement class, schedule-trace hash, tape hash); batches enumerated / enumerated-resume: one run per (write of one hop x fault kind x structural position) of a base scenario; batch bitflips: one run per bit of every byte of each control line (<= 160 bytes) of a resumed transfer"})
 	reg(&propDef{id: "C11", level: "exploration", crashIsViol: false,
@@ -617,7 +620,8 @@ func init() {
 		batches: []batch{{name: "transparency", quick: 2000, thorough: 80000}},
 		rule:    "each evaluation is one real filter (option sets drag x tracelog x zmodem x OSC52) after a history of 0-3 real transfers (ended by success, user stop through the prompt, or SIGINT at the server), fed 3-14 probe chunks in both directions: random binary, VT100 sequences, truncated/corrupted trigger look-alikes, zmodem-like and OSC52-like fragments (including vetoed zmodem headers and genuine OSC52), scroll-back of finished transfers, control keys, path-like input naming files that do not exist, existing paths not in the dragged-path shape, bracketed paste; any segmentation and coalescing; oracle: bytes at the terminal == bytes the shell wrote and bytes at the server side == bytes typed, exactly, and no transfer starts; non-trivial = probe bytes compared; distinct = distinct (options + history + probe kinds, schedule-trace hash, tape hash)"})
 	reg(&propDef{id: "C06", level: "exploration", crashIsViol: true,
-		batches: []batch{{name: "triggers", quick: 1500, thorough: 60000}},
+		batches: []batch{{name: "triggers", quick: 1500, thorough: 60000},
+			{name: "relaymode", params: map[string]string{"relaymode": "1"}, quick: 1500, thorough: 60000}},
 		rule:    "each evaluation feeds one real filter (with or without a tunnel connector) a sequence of 3-12 chunks: genuine triggers from a grammar (modes S/R/D, versions 0.0.0-10.200.3000, ids absent/short/13 digits with suffix 00/10/20/22/15 digits, port absent/present, arbitrary prefix bytes in the same read), truncated or one-byte-corrupted triggers, redraws repeating a deduplicated id seen among the last 40, scroll-back transcripts; a scripted server refuses every ACT; oracles: exactly one ACT (or, for an upload trigger with nothing to upload, one fail line) per genuine fresh trigger and none otherwise, ACT protocol 2 for server versions 1.1.0-1.1.3, Windows framing iff the id says so, connector called with the advertised port, negatives shown unmodified, and what the filter shows locally for a positive starts nothing in a second real filter; non-trivial = all items processed; distinct = distinct (connector + item kinds, schedule-trace hash, tape hash)"})
 	reg(&propDef{id: "C07", level: "exploration", crashIsViol: true,
 		batches: []batch{{name: "collisions", quick: 1200, thorough: 40000}},
@@ -971,7 +975,7 @@ func main() {
 					lens, _ := r.Scenario["enum_lens"].([]any)
 					for k := 0; k < places && k < len(lens); k++ {
 						n, _ := lens[k].(float64)
-						if int(n) > b.enumDense {
+						if int(n) > b.enumDense || int(n) < b.enumDenseMin {
 							continue
 						}
 						for abs := 0; abs < int(n); abs++ {
